@@ -1545,7 +1545,11 @@ def process_iter(attrs=None, ad_value=None):
     for pid in gone_pids:
         remove(pid)
     while _pids_reused:
-        pid = _pids_reused.pop()
+        try:
+            pid = _pids_reused.pop()
+        except KeyError:
+            # emptied by another thread which is iterating at the same time
+            break
         debug(f"refreshing Process instance for reused PID {pid}")
         remove(pid)
     try:
